@@ -349,6 +349,19 @@ func monC02(c *drv.Ctx) {
 		cs.Count(true, "stack", t, pad, b)
 	})
 
+	// (3b'') well-formed values of 2..8 GiB (untouched zero pages) through the skippers that need not buffer them
+	if !c.Slow() && (c.Flavour == "plain" || c.Flavour == "go126") {
+		var vcs []vcase
+		for _, vc := range virtualCases() {
+			if vc.size < 0x80000000 {
+				vcs = append(vcs, vc)
+			}
+		}
+		c.Stage("values-beyond-2GiB", int64(len(vcs)), true, func(cs *drv.Case) {
+			runVirtualCase(cs, vcs[cs.Idx])
+		})
+	}
+
 	// (3c) multi-megabyte values (beyond 1 MiB and 4 MiB), first on fresh pooled decoders, then again
 	c.Stage("huge-values", 12, true, func(cs *drv.Case) {
 		size := []int{1<<20 + 5, 3 << 19, 4<<20 + 1, 6 << 20}[cs.Idx%4]
